@@ -12,6 +12,8 @@ def rand_axis(rng, k, dimctr, nmax=5, need_face=True, positions=None):
         positions = ["center"] + rng.sample(FACE, nface)
         rng.shuffle(positions)
     n = rng.randint(2, nmax)
+    if rng.random() < 0.06:
+        n = rng.randint(nmax + 1, nmax + 5)       # now and then an axis well beyond the usual size
     pos = []
     for p in positions:
         dimctr[0] += 1
